@@ -211,6 +211,7 @@ Lemma L_decl_var a z decl x :
        exists zpre' T', z' = zpre' ++ (T', prT) :: zpost /\
          map (fun g => dnames (fst g)) zpre' = map (fun g => dnames (fst g)) zpre /\
          map snd zpre' = map snd zpre /\
+         (forall g, In g zpre' -> fisfunc (fst g) = false) /\ fisfunc T' = true /\
          In x (dnames T') /\ (forall y, In y (dnames T) -> In y (dnames T')) /\
          (forall y, In y (dnames T') -> In y (dnames T) \/ y = x) /\
          (forall g g', In (g, g') (combine zpre zpre') -> forall y, In (UPend y) (fund (fst g')) <-> In (UPend y) (fund (fst g)))).
@@ -246,6 +247,10 @@ Proof.
   { rewrite map_map. apply map_ext. intros [g pg]. unfold pass_frame, dnames. cbn [fst].
     destruct (add_pass_shape x (fid T) g) as (_ & _ & -> & _). reflexivity. }
   split; [rewrite map_map; apply map_ext; intros [g pg]; reflexivity|].
+  split.
+  { intros g Hg. apply in_map_iff in Hg. destruct Hg as (g0 & <- & Hg0). unfold pass_frame. cbn [fst].
+    destruct (add_pass_shape x (fid T) (fst g0)) as (_ & -> & _). apply Hpre. exact Hg0. }
+  split; [destruct (decl_frame_shape T decl x) as [_ ->]; exact HfT|].
   split; [apply decl_frame_in|]. split; [intros y; apply decl_frame_mono|]. split; [intros y; apply decl_frame_new|].
   intros g g' Hin y. clear -Hin. revert Hin. induction zpre as [|[h ph] rest IH]; cbn; [tauto|].
   intros [E|Hin]; [|apply IH; exact Hin]. inversion E; subst. cbn [fst pass_frame]. split.
